@@ -634,11 +634,12 @@ package rewriter
 //@ func (r *rewriter) containsYield(pkg, n) (c)
 //@   trusted      -- recover-based astutil traversal (outside the subset): is there a call of Yield / YieldFrom outside nested function literals
 //@   ensures c == HasYield(iface(n, BlockStmt))
+//@   ensures n != nil && len(n.List) == 1 ==> c == HasYield(n.List[0])      -- a one-statement block holds a yield iff its statement does (what HasYield of a statement means)
 
 //@ func (r *yieldRewriter) mustNoYield(stmt) (t)
-//@   trusted      -- delegates to rewriter.containsYield (recover-based traversal, outside the subset); bounded stand-in in the thorough tier
-//@   ensures isnil(stmt) ==> t
-//@   ensures !isnil(stmt) ==> (t == !HasYield(stmt))
+//@   requires r.rewriter != nil
+//@   ensures[nil] isnil(stmt) ==> t
+//@   ensures[value] !isnil(stmt) ==> (t == !HasYield(stmt))
 
 //@ func (r *yieldRewriter) checkYieldCall(call)
 //@   trusted      -- go/types assignability check of the yielded value; diagnostic otherwise
